@@ -358,7 +358,8 @@ impl ZoneHarness {
                 match self.writers.get_mut(&w) {
                     Some(Session::W { wz, root }) => {
                         *root = None;
-                        self.rt.block_on(wz.commit(false)).unwrap();
+                        // bump = commit(true): automatic SOA serial bump
+                        self.rt.block_on(wz.commit(op["bump"] == true)).unwrap();
                     }
                     Some(Session::U { up }) => {
                         // commits the batch and re-opens the zone
